@@ -22,10 +22,16 @@
 EXTENDS Integers, Sequences, FiniteSets, SequencesExt, FiniteSetsExt, TLC
 
 CONSTANTS Window,      \* number of retained block journals (10 in the code)
-          AddStateFix  \* BOOLEAN: TRUE = AddState loads the stored value first (repaired code), FALSE = as first found
+          AddStateFix, \* BOOLEAN: TRUE = AddState loads the stored value first (repaired code), FALSE = as first found
+          FoundFix     \* BOOLEAN: TRUE = a read finds a key iff its value is non-empty (repaired), FALSE = iff it is non-nil
 
 Nil    == "NIL"
 Absent == "ABSENT"      \* "no entry in this layer"
+\* an empty, non-nil byte string: as a VALUE it is Nil (the properties speak about values, and Commit compares old and
+\* new value with bytes.Equal, so writing it over an absent key changes nothing); the layers can still hold it, and
+\* the "found" flag of a read is where the difference could leak out (SFound, C13_StableExistence)
+Empty  == "EMPTY"
+Norm(v) == IF v = Empty THEN Nil ELSE v
 SeqRange(q) == {q[i] : i \in 1..Len(q)}
 
 \* the universe U is a record describing the slots of a run:
@@ -162,7 +168,7 @@ SFinalise(s) == [s EXCEPT !.jnl = IF Len(@) > 0 THEN <<>> ELSE @, !.revs = <<>>,
 \* FlushDirtyData: journal entry per modified account, account cache refreshed, per-block objects dropped
 SFlush(U, s) ==
   LET org(sl) == IF s.origin[sl] # Absent THEN s.origin[sl] ELSE Default(U, sl)
-      chg     == {sl \in U.slots : s.dirty[sl] # Absent /\ s.dirty[sl] # org(sl)}
+      chg     == {sl \in U.slots : s.dirty[sl] # Absent /\ Norm(s.dirty[sl]) # Norm(org(sl))}
       accts   == {U.acct[sl] : sl \in chg}          \* accounts with a journal entry = "dirty accounts"
       toCache == {sl \in U.slots : U.acct[sl] \in accts /\ s.dirty[sl] # Absent}
   IN [s EXCEPT !.pend   = {<<sl, s.dirty[sl], org(sl)>> : sl \in chg},
@@ -205,12 +211,15 @@ SReopen(U, s) ==
 SQuery(U, s, sls) ==
   LET val(sl) == IF s.dirty[sl] # Absent THEN s.dirty[sl]
                  ELSE IF s.cache[sl] # Absent THEN s.cache[sl] ELSE s.db[sl]
-  IN [sl \in {x \in sls : val(x) # Nil} |-> val(sl)]
+  IN [sl \in {x \in sls : Norm(val(x)) # Nil} |-> val(sl)]
+
+\* the "found" flag GetState returns next to the value
+SFound(U, s, sl) == LET v == SRead(U, s, sl).v IN IF FoundFix THEN Norm(v) # Nil ELSE v # Nil
 
 (***************************************************************************)
 (* Listed properties (over ghost g and an observation)                     *)
 (***************************************************************************)
-C13_ReadLatest(g, sl, answer)      == sl \in g.free \/ answer = g.cur[sl]
+C13_ReadLatest(g, sl, answer)      == sl \in g.free \/ Norm(answer) = g.cur[sl]
 C13_QueryExact(g, sls, answerSeq)  == (sls \cap g.free # {}) \/ BagOfSeq(answerSeq) = BagOfFn(LiveVals(g, sls))
 C13_RevertRestores(gAfter, readback) == \A sl \in DOMAIN readback : readback[sl] = gAfter.cur[sl]
 C12_Refused(g, t, err)   == (~GRollbackOK(g, t)) => err # "ok"
